@@ -6,7 +6,7 @@ P = os.path.join(os.path.dirname(os.path.dirname(os.path.abspath(__file__))), "c
 
 IMPORTS = """From LexVerif Require Import Base CharClass RangeMap Regex Spec SpecExec LexSpec Nfa Dfa NfaToDfa NfaSem Codegen
      Runtime ScanIface RulesetSem Driver SpecDef ClassAlgProofs RuntimeProofs RuntimeLemmas ScanOkProofs
-     RulesetSemProofs LexSpecProofs LexSpecFacts EndToEnd EndToEndModel Instance Harness.
+     RulesetSemProofs LexSpecProofs LexSpecFacts SpecInvariants EndToEnd EndToEndModel Instance Harness.
 From LexVerif.Gen Require Import GenTables GenConsts.
 """
 
@@ -306,8 +306,48 @@ Theorem c06_token_span : forall (benv : builtin_env) (width : N -> N) (tab_width
     s_rest U s' = skipn k (s_rest U s) /\\ s_mstart U s' = pos' /\\ s_pos U s' = pos' /\\
     s_rs U s' = (match a_switch o with Some n => n | None => s_rs U s end).
 Proof. exact spec_token. Qed.
+
+(* every location of every item of the reference stream is the location obtained by scanning the
+   input from its beginning up to that point (a prefix of the input), start <= end *)
+Theorem c06_item_locations : forall (benv : builtin_env) (width : N -> N) (tab_width : N) (T E U : Type)
+    (rss : list (list crule)) (actions : nat -> action T E U) (whole : list N) (n : nat) (s : sstate U)
+    (r : list (option (item T E))),
+  loc_inv width tab_width U whole s ->
+  spec_run benv width tab_width T E U rss actions n s r ->
+  forall i : item T E, In (Some i) r -> item_loc_ok width tab_width T E whole i.
+Proof. exact spec_run_item_locs. Qed.
+
+Theorem c06_initial_state_ok : forall (width : N -> N) (tab_width : N) (U : Type) (whole : list N) (u : U),
+  loc_inv width tab_width U whole (s_init U whole u).
+Proof. exact loc_inv_init. Qed.
+
+(* successive items never overlap and appear in input order *)
+Theorem c06_items_ordered : forall (benv : builtin_env) (width : N -> N) (tab_width : N) (T E U : Type)
+    (rss : list (list crule)) (actions : nat -> action T E U) (whole : list N) (n : nat) (s : sstate U)
+    (r : list (option (item T E))),
+  loc_inv width tab_width U whole s ->
+  spec_run benv width tab_width T E U rss actions n s r ->
+  ordered_from T E (byte_idx (s_mstart U s)) r.
+Proof. exact spec_run_ordered. Qed.
+
+(* what the action of a token saw: match_loc() = two prefix locations, match_() = the input slice between
+   them, peek() = the next character; the token's end is the view's end, its start the view's start
+   (or the end after reset_match) *)
+Theorem c06_token_view : forall (benv : builtin_env) (width : N -> N) (tab_width : N) (T E U : Type)
+    (rss : list (list crule)) (actions : nat -> action T E U) (whole : list N) (s : sstate U)
+    (st : Loc) (t : T) (en : Loc) (s' : sstate U),
+  loc_inv width tab_width U whole s ->
+  spec_step benv width tab_width T E U rss actions s = SItem T E U (ITok st t en) s' ->
+  exists (r : crule) (k : nat) (e : bool) (v : view),
+    select benv (nth (s_rs U s) rss []) (s_rest U s) = Some (r, (k, e)) /\\
+    SpecInvariants.view_ok width tab_width whole v /\\
+    a_res (actions (cr_act r) v (s_user U s)) = AReturn (inl t) /\\
+    en = v_end v /\\
+    st = (if a_reset (actions (cr_act r) v (s_user U s)) then v_end v else v_start v).
+Proof. exact token_view. Qed.
 """ + sim_thm("c06"),
-  ["c06_byte_index", "c06_prefix_compositional", "c06_newline", "c06_tab", "c06_other", "c06_token_span"] + COMMON("c06"))
+  ["c06_byte_index", "c06_prefix_compositional", "c06_newline", "c06_tab", "c06_other", "c06_token_span",
+   "c06_item_locations", "c06_initial_state_ok", "c06_items_ordered", "c06_token_view"] + COMMON("c06"))
 
 files["C07"] = ("""(* C07 Errors are raised exactly when nothing matches and point at the lexeme start. *)
 """ + IMPORTS + """
@@ -417,8 +457,32 @@ Theorem c09_match_progress : forall (benv : builtin_env) rules w r k e,
     (forall r' k' e', In r' rules -> candidate benv r' w k' e' -> le_ke (k', e') (k, e)) /\\
     (forall j r', j < i -> nth_error rules j = Some r' -> ~ candidate benv r' w k e).
 Proof. exact select_some. Qed.
+
+(* a lexer over n characters yields at most n+1 items ... *)
+Theorem c09_items_bound : forall (benv : builtin_env) (width : N -> N) (tab_width : N) (T E U : Type)
+    (rss : list (list crule)) (actions : nat -> action T E U) (n : nat) (s : sstate U)
+    (r : list (option (item T E))),
+  spec_run benv width tab_width T E U rss actions n s r ->
+  length (filter (fun o : option (item T E) => match o with Some _ => true | None => false end) r)
+  <= length (s_rest U s) + 1.
+Proof. exact spec_run_items_bound. Qed.
+
+(* ... and runs at most n+1 actions (counted by instrumenting the action functions) *)
+Theorem c09_actions_bound : forall (benv : builtin_env) (width : N -> N) (tab_width : N) (T E U : Type)
+    (rss : list (list crule)) (actions : nat -> action T E U) (whole : list N) (u : U) (n : nat)
+    (r : list (option (item T E))) (s' : sstate (nat * U)),
+  spec_run_st benv width tab_width T E (nat * U) rss (count_actions T E U actions) n
+              (s_init (nat * U) whole (0, u)) r s' ->
+  fst (s_user (nat * U) s') <= length whole + 1.
+Proof. exact spec_run_actions_bound. Qed.
+
+(* a selected match consumes at least one character or is the end-of-input match (any rules) *)
+Theorem c09_select_shape : forall (benv : builtin_env) (rules : list crule) (w : list N) (r : crule) (k : nat) (e : bool),
+  select benv rules w = Some (r, (k, e)) -> k <= length w /\\ (if e then k = length w else 1 <= k).
+Proof. exact select_shape. Qed.
 """ + sim_thm("c09"),
-  ["c09_no_panic_no_fuel", "c09_failure_progress", "c09_match_progress"] + COMMON("c09"))
+  ["c09_no_panic_no_fuel", "c09_failure_progress", "c09_match_progress", "c09_items_bound", "c09_actions_bound",
+   "c09_select_shape"] + COMMON("c09"))
 
 files["C10"] = ("""(* C10 Semantic-action protocol: once per match, accumulate/reset/return, sugar forms. *)
 """ + IMPORTS + """
